@@ -8,10 +8,10 @@ EXTENDS TsigOps, TLC
 
 CONSTANTS Fudge, Dts, Tampers
 
-Requests == [op : {"update", "axfr"}, signed : BOOLEAN, keyName : {"k1", "k2", "kx"},
+Requests == [op : {"update", "axfr", "ixfr"}, signed : BOOLEAN, keyName : {"k1", "k2", "kx"},
              macKey : {"k1", "k2", "kbad"}, alg : {"cfg", "other"}, macLen : {"full", "trunc"},
              dt : Dts, tamper : Tampers]
-Policies == [allowUpdate : BOOLEAN, axfr : {"deny", "all", "signed"}, fudge : {Fudge}]
+Policies == [allowUpdate : BOOLEAN, axfr : {"deny", "all", "signed"}, fudge : {Fudge}, store : {"sqlite", "memory"}]
 
 \* an unsigned request has no TSIG fields: normalise them so that descriptions are unique
 Normal(r) == r.signed \/ (r.keyName = "kx" /\ r.macKey = "kbad" /\ r.alg = "cfg" /\ r.macLen = "full"
